@@ -200,6 +200,17 @@ def resolve_tol_oracle(t, c, n_comp, which):
     return lambda i: EPS[promoted_float(A["dtype"], B["dtype"])]
 
 
+def tol_misfit(c):
+    """a per-component tolerance array that does not fit the (reconciled) field shape: outside the statements and the model's domain"""
+    if "comp" not in (c["rel"][0], c["abs"][0]):
+        return False
+    s = recon_shape(c)
+    n_comp = 1
+    for x in s[1:]:
+        n_comp *= x
+    return len(s) < 2 or any(t[0] == "comp" and len(t[1]) != n_comp for t in (c["rel"], c["abs"]))
+
+
 def oracle(c):
     """1/0 per the property statements (C01 formula, C09 exactness); None where the statement is silent."""
     A, B = c["a"], c["b"]
@@ -704,6 +715,8 @@ def judge(ctx, cases, impls, models, label):
         if orc is not None and im != orc:
             ctx.violation("E4", f"{label}: implementation verdict {im} contradicts the statement ({orc})",
                           canon, impl=im, model=mo, oracle=orc)
+        elif orc is None and tol_misfit(c) and shapes_comparable(c["a"]["shape"], c["b"]["shape"]):
+            ctx.count(f"{label}:tolerance array does not fit the field (not compared)")
         elif im != mo:
             ctx.violation("E2", f"{label}: model {mo} != implementation {im}", canon, found_input=False,
                           impl=im, model=mo, oracle=orc)
